@@ -56,7 +56,9 @@ Section Effects.
     - intros m x _. split; auto.
     - intros m x _. split; auto.
     - intros m x a b _. split; auto.
-    - intros m x a b _. split; auto.
+    - intros m x _. split; auto.
+    - intros m x _. split; auto.
+    - intros m x _ _. split; auto.
     - intros m x w _. split; auto.
     - intros m x i r _. split; auto.
     - intros m x _ NC _. split; [auto|]. intros Cx. congruence.
